@@ -19,6 +19,8 @@ echo "== demo WITH change: $*" >>$LOG
 echo "== baseline with change" >>$LOG
 rm -f "$DEST"
 /verif/tools/run_baseline.sh $W $W/target >>$LOG 2>&1; BASE=$?
+# one test builds an example in release mode inside a 300 s timeout and flakes on a cold target dir under load: retry once, warm
+if [ $BASE -ne 0 ]; then echo "== baseline retry (warm target dir)" >>$LOG; /verif/tools/run_baseline.sh $W $W/target >>$LOG 2>&1; BASE=$?; fi
 cp "$SRC" "$DEST"
 git apply -R /tmp/seed_${ID}_out/patch.diff
 echo "== demo WITHOUT change" >>$LOG
